@@ -190,11 +190,17 @@ def record_trace(job):
     src = os.path.join(d, "b%d_%d%s" % (os.getpid(), tid, suffix))
     dst = os.path.join(d, "bw%d_%d%s" % (os.getpid(), tid, suffix))
 
+    # a FASTQ file is also written to a FASTA target (lazily and eagerly read): the target decides the format
+    to, lazy = fmt, False
+    if fmt == "fastq" and tid % 2:
+        to, lazy = "fasta", bool(tid % 4 == 1)
+        dst = os.path.join(d, "bw%d_%d.fa" % (os.getpid(), tid))
+
     def go():
         with open(src, "wb") as f:
             f.write(data)
-        t = bnp.open(src, lazy=False, **kw).read()
-        w = bnp.open(dst, "w", **kw)
+        t = bnp.open(src, lazy=lazy, **kw).read()
+        w = bnp.open(dst, "w", **(kw if to == fmt else {}))
         w.write(t)
         w.close()
         return list(open(dst, "rb").read())
@@ -202,7 +208,7 @@ def record_trace(job):
     for p in (src, dst):
         if os.path.exists(p):
             os.remove(p)
-    return {"tid": tid, "fmt": fmt, "text": list(data), "written": o}
+    return {"tid": tid, "fmt": fmt, "to": to, "lazy": lazy, "text": list(data), "written": o}
 
 
 def validate_traces(ctx, recs):
@@ -212,10 +218,10 @@ def validate_traces(ctx, recs):
             bad.append({"what": "reading a well-formed %s file eagerly and writing the table raised" % r["fmt"], "tags": {"format": r["fmt"], "kind": "raises", "binding": "B", "target": "plain"},
                         "vector": {"fmt": r["fmt"], "text": r["text"]}, "expected": "canonical bytes", "observed": r["written"][1], "case": {"text": bytes(r["text"]).decode("latin-1")[:300]}})
         else:
-            items.append({"tid": len(items), "fmt": r["fmt"], "text": r["text"], "written": r["written"][1]})
+            items.append({"tid": len(items), "fmt": r["fmt"], "to": r["to"], "text": r["text"], "written": r["written"][1], "_lazy": r["lazy"]})
     path = os.path.join(ctx.work, "c03_traces.json")
     with open(path, "w") as f:
-        json.dump(items, f)
+        json.dump([{k: t[k] for k in t if not k.startswith("_")} for t in items], f)
     res = ctx.tlc("Trace_C03", workers=1, env={"TRACE_FILE": path}, init="Init", next_="Next", postcondition="Post", timeout=3000)
     rej, acc = {}, None
     for line in res.printed:
@@ -230,7 +236,7 @@ def validate_traces(ctx, recs):
         t = items[tid]
         k = int(why[0])
         bad.append({"what": "bytes written for an eagerly read %s file are not the canonical serialisation of what its text means (first difference at byte %d)" % (t["fmt"], k),
-                    "tags": {"format": t["fmt"], "kind": "bytes", "binding": "B", "target": "plain"}, "vector": {"fmt": t["fmt"], "text": t["text"]},
+                    "tags": {"format": t["fmt"], "kind": "bytes", "binding": "B", "target": "plain" if t["to"] == t["fmt"] else t["to"], "lazy": t["_lazy"]}, "vector": {"fmt": t["fmt"], "text": t["text"]},
                     "expected": "Formats.tla!Serialise(Parse(text))", "observed": bytes(t["written"]).decode("latin-1")[max(0, k - 40):k + 40],
                     "case": {"text": bytes(t["text"]).decode("latin-1")[:300]}})
     return bad, acc
